@@ -11,7 +11,8 @@ pub struct C16;
 
 pub fn bundled_files() -> Vec<(Format, truth::Game, Vec<u8>, String)> {
     let mut out = vec![];
-    for dir in ["/repo/tests/integration/bits-2-bits", "/repo/tests/integration/resources"] {
+    let repo = std::env::var("VERIF_REPO").unwrap_or_else(|_| "/repo".to_string());   // (a scratch copy when a seeded change is tried)
+    for dir in [format!("{repo}/tests/integration/bits-2-bits"), format!("{repo}/tests/integration/resources")] {
         let mut paths: Vec<_> = match std::fs::read_dir(dir) { Ok(rd) => rd.filter_map(|e| e.ok()).map(|e| e.path()).collect(), Err(_) => continue };
         paths.sort();
         for p in paths {
